@@ -8,6 +8,7 @@ import Deb822Verif.Model.CtlWrap
 import Deb822Verif.Spec.DocGrammar
 import Deb822Verif.Spec.DocSDec
 import Deb822Verif.Spec.LossyCanon
+import Deb822Verif.Props.C01More
 namespace Deb822Verif.Driver.Deb
 open Deb822Verif Proto Deb
 
@@ -359,6 +360,19 @@ def handle (op : String) (args : List String) : Option String :=
   | "deb.view", [t] => do
     let s ← decStr t
     pure (viewDoc s)
+  | "deb.readbytes", [t] => do
+    -- Deb822::read_relaxed / read over raw bytes (model: Props/C01More readBytesRelaxed / readBytes)
+    let bs ← match t.toList with
+      | 'x' :: rest => Hex.decodeBytes rest
+      | _ => none
+    let b := ByteArray.mk bs.toArray
+    let strict := match Props.C01.readBytes b with
+      | .ok _ => "ok"
+      | .error .io => "io"
+      | .error (.parse _) => "err"
+    match Props.C01.readBytesRelaxed b with
+    | none => pure s!"io {strict}"
+    | some (tr, errs) => pure s!"ok {encStr tr.text} {errs.length} {strict}"
   | "deb.read", [t] => do
     let s ← decStr t
     let r := parse s
